@@ -22,11 +22,13 @@
    the MODEL at any size on the exact path ([C07_zs_clauses], [C07_sim_exact], nil cases [C07_nil_cases]);
    (c) the earlier bounded theorems (kept): model = spec = brute-force minimum over all Tai mappings on all pairs of
    trees with <= 4 nodes over 2 labels and <= 3 nodes over 3 labels; (d) the memoised evaluator equals the spec.
-   NOT proved in general: spec = minimum over all Tai mappings for all trees ([C07_delta_is_min_bounded] only). *)
+   (f) [C07_delta_is_min]: the recurrence equals the brute-force minimum over ALL Tai mappings ([mapping_min] of
+   Ted/TedBrute.v) for all forests and all cost models (Tai's theorem; both inequalities), hence
+   [C07_zs_is_min]: the model returns the minimum edit cost. *)
 From Coq Require Import ZArith NArith QArith String List Lia.
 From PV Require Import Gen.TedConst Ted.TedSpec Ted.TedProofs Ted.Cost Ted.CostProofs Ted.ZS Ted.TedSim Ted.TedMemo
   Ted.TedBrute Ted.BoundedDefs Ted.BoundedPython Ted.TedCorollaries Ted.ZSRefine
-  Ted.TedRight Ted.ZSPost Ted.ZSPrepare Ted.ZSTable Ted.ZSExact Ted.ZSCorollaries.
+  Ted.TedRight Ted.ZSPost Ted.ZSPrepare Ted.ZSTable Ted.ZSExact Ted.ZSCorollaries Ted.TaiSteps Ted.TaiUpper Ted.TaiLower.
 Import ListNotations.
 
 (* ---------- (a) the spec, unbounded ------------------------------------------------------------------ *)
@@ -178,6 +180,22 @@ Example C07_exact_example : ComputeDistance default_cost (Some (Node 0 [Node 1 [
   = Some (ted default_cost (Node 0 [Node 1 []; Node 2 []]) (Node 0 [Node 1 [Node 2 []]])).
 Proof. apply C07_ComputeDistance_exact; cbn; lia. Qed.
 
+(* ---------- (f) UNBOUNDED: the spec is the minimum over all Tai mappings ------------------------------- *)
+(* some mapping achieves the recurrence ... *)
+Theorem C07_mapping_min_le_delta : forall c F G, (mapping_min c F G <= delta c F G)%Z.
+Proof. exact mapping_min_le_delta. Qed.
+(* ... and no mapping is cheaper *)
+Theorem C07_delta_le_mapping_min : forall c F G, (delta c F G <= mapping_min c F G)%Z.
+Proof. exact delta_le_mapping_min. Qed.
+Theorem C07_delta_is_min : forall c a b, ted c a b = mapping_min c [a] [b].
+Proof. intros. apply delta_is_min. Qed.
+Theorem C07_delta_is_min_forests : forall c F G, delta c F G = mapping_min c F G.
+Proof. exact delta_is_min. Qed.
+(* the model returns the minimum edit cost *)
+Theorem C07_zs_is_min : forall c t1 t2, (tsize t1 <= 500)%nat -> (tsize t2 <= 500)%nat ->
+  ComputeDistance c (Some t1) (Some t2) = Some (mapping_min c [t1] [t2]).
+Proof. intros c t1 t2 H1 H2. rewrite ComputeDistance_is_ted by assumption. f_equal. apply delta_is_min. Qed.
+
 (* observation: under the Python-aware costs insert(FunctionDef) > insert(Decorator) + rename(Decorator, FunctionDef) *)
 Theorem C07_python_cost_not_metric : (ins c_python 1 > ins c_python 0 + ren c_python 0 1)%Z.
 Proof. exact python_cost_not_metric. Qed.
@@ -215,3 +233,8 @@ Print Assumptions C07_large_undefined.
 Print Assumptions C07_zs_clauses.
 Print Assumptions C07_sim_exact.
 Print Assumptions C07_sim_self_one.
+Print Assumptions C07_mapping_min_le_delta.
+Print Assumptions C07_delta_le_mapping_min.
+Print Assumptions C07_delta_is_min.
+Print Assumptions C07_delta_is_min_forests.
+Print Assumptions C07_zs_is_min.
